@@ -6,6 +6,8 @@ package main
 
 import (
 	"go/types"
+	"math/big"
+	"strconv"
 	"strings"
 
 	"golang.org/x/tools/go/ssa"
@@ -18,6 +20,11 @@ func (ex *Exec) vecDim(t types.Type) int {
 		t = p.Elem()
 	}
 	k := ex.absKind(t)
+	if strings.HasPrefix(k, "cyc") {
+		if d, err := strconv.Atoi(k[3:]); err == nil && d > 0 {
+			return d
+		}
+	}
 	if strings.HasPrefix(k, "vec") {
 		switch k {
 		case "vec1":
@@ -76,6 +83,9 @@ func (ex *Exec) vecIsZero(a *VecV) *Term {
 }
 
 func (ex *Exec) vecMethod(st *PState, fn *ssa.Function, args []Value) (Value, bool) {
+	if ex.isCyc(fn.Signature.Recv().Type()) {
+		return ex.cycMethod(st, fn, args)
+	}
 	recv := args[0]
 	_, ptrRecv := fn.Signature.Recv().Type().(*types.Pointer)
 	L := func(i int) *VecV {
@@ -127,6 +137,192 @@ func (ex *Exec) vecMethod(st *PState, fn *ssa.Function, args []Value) (Value, bo
 		return set(&VecV{C: []*Term{ts.Neg(v.C[1]), ts.Sub(v.C[0], v.C[1])}}), true
 	case "IsInfinity":
 		return ex.vecIsZero(L(0)), true
+	}
+	return nil, false
+}
+
+// ---------- "cycD" interpretation: the ring Q(params)[w]/(w^D + 1) ----------
+//
+// A field element is the coefficient vector (c_0..c_{D-1}), real terms, of c_0 + c_1 w + ... with w a
+// formal primitive 2D-th root of unity (w^D = -1). Identities proved here hold in every field with
+// a primitive 2D-th root of unity (image of the ring under w -> that root), for all values of the
+// scalar unknowns.
+
+func (ex *Exec) isCyc(t types.Type) bool {
+	if p, ok := t.(*types.Pointer); ok {
+		t = p.Elem()
+	}
+	return strings.HasPrefix(ex.absKind(t), "cyc")
+}
+
+func (ex *Exec) cycZero(n int) *VecV {
+	v := &VecV{C: make([]*Term, n)}
+	z := ex.ts.Real(new(big.Rat))
+	for i := range v.C {
+		v.C[i] = z
+	}
+	return v
+}
+
+func (ex *Exec) cycScalar(n int, c *Term) *VecV {
+	v := ex.cycZero(n)
+	v.C[0] = c
+	return v
+}
+
+// cycRoot returns w^k.
+func (ex *Exec) cycRoot(n int, k int64) *VecV {
+	k = ((k % int64(2*n)) + int64(2*n)) % int64(2*n)
+	v := ex.cycZero(n)
+	if k >= int64(n) {
+		v.C[k-int64(n)] = ex.ts.Real(big.NewRat(-1, 1))
+	} else {
+		v.C[k] = ex.ts.Real(big.NewRat(1, 1))
+	}
+	return v
+}
+
+func (ex *Exec) cycMul(a, b *VecV) *VecV {
+	ts := ex.ts
+	n := len(a.C)
+	r := ex.cycZero(n)
+	for i := 0; i < n; i++ {
+		if a.C[i].isZero() {
+			continue
+		}
+		for j := 0; j < n; j++ {
+			if b.C[j].isZero() {
+				continue
+			}
+			p := ts.Mul(a.C[i], b.C[j])
+			k := i + j
+			if k >= n {
+				r.C[k-n] = ts.Sub(r.C[k-n], p)
+			} else {
+				r.C[k] = ts.Add(r.C[k], p)
+			}
+		}
+	}
+	return r
+}
+
+func (ex *Exec) cycLin(a *VecV, ca int64, b *VecV, cb int64) *VecV {
+	ts := ex.ts
+	r := &VecV{C: make([]*Term, len(a.C))}
+	for i := range r.C {
+		x := ts.Mul(ts.Real(big.NewRat(ca, 1)), a.C[i])
+		if b != nil {
+			x = ts.Add(x, ts.Mul(ts.Real(big.NewRat(cb, 1)), b.C[i]))
+		}
+		r.C[i] = x
+	}
+	return r
+}
+
+func (ex *Exec) cycInverse(a *VecV) *VecV {
+	ts := ex.ts
+	n := len(a.C)
+	idx := -1
+	for i, c := range a.C {
+		if !c.isZero() {
+			if idx >= 0 {
+				fail("inverse of a non-monomial ring element (only c*w^k can be inverted in this interpretation)")
+			}
+			idx = i
+		}
+	}
+	if idx < 0 {
+		return ex.cycZero(n)
+	}
+	c := a.C[idx]
+	z := ts.Real(new(big.Rat))
+	inv := ts.Ite(ts.Eq(c, z), z, ts.RDiv(ts.Real(big.NewRat(1, 1)), c))
+	r := ex.cycZero(n)
+	if idx == 0 {
+		r.C[0] = inv
+	} else {
+		// (c w^k)^-1 = c^-1 w^-k = -c^-1 w^(D-k)
+		r.C[n-idx] = ts.Neg(inv)
+	}
+	return r
+}
+
+func (ex *Exec) cycMethod(st *PState, fn *ssa.Function, args []Value) (Value, bool) {
+	ts := ex.ts
+	recv := args[0]
+	_, ptrRecv := fn.Signature.Recv().Type().(*types.Pointer)
+	n := ex.vecDim(fn.Signature.Recv().Type())
+	L := func(i int) *VecV {
+		if i == 0 && !ptrRecv {
+			return args[0].(*VecV)
+		}
+		return ex.ldV(st, args[i])
+	}
+	set := func(v *VecV) Value {
+		ex.store(st, recv, v)
+		return recv
+	}
+	rc := func(k int64) *Term { return ts.Real(big.NewRat(k, 1)) }
+	eq := func(a, b *VecV) *Term {
+		var cs []*Term
+		for i := range a.C {
+			cs = append(cs, ts.Eq(a.C[i], b.C[i]))
+		}
+		return ts.And(cs...)
+	}
+	switch fn.Name() {
+	case "Set":
+		return set(L(1)), true
+	case "SetZero":
+		return set(ex.cycZero(n)), true
+	case "SetOne":
+		return set(ex.cycScalar(n, rc(1))), true
+	case "SetUint64", "SetInt64":
+		return set(ex.cycScalar(n, ts.ToReal(args[1].(*Term)))), true
+	case "Add":
+		return set(ex.cycLin(L(1), 1, L(2), 1)), true
+	case "Sub":
+		return set(ex.cycLin(L(1), 1, L(2), -1)), true
+	case "Neg":
+		return set(ex.cycLin(L(1), -1, nil, 0)), true
+	case "Double":
+		return set(ex.cycLin(L(1), 2, nil, 0)), true
+	case "Mul":
+		return set(ex.cycMul(L(1), L(2))), true
+	case "Square":
+		x := L(1)
+		return set(ex.cycMul(x, x)), true
+	case "Inverse":
+		return set(ex.cycInverse(L(1))), true
+	case "Div":
+		return set(ex.cycMul(L(1), ex.cycInverse(L(2)))), true
+	case "Exp":
+		// Exp(x Element, k *big.Int) with a concrete exponent
+		x := args[1].(*VecV)
+		k := ex.ldT(st, args[2])
+		if !k.IsConst() {
+			fail("ring element raised to a symbolic exponent")
+		}
+		e := new(big.Int).Set(k.ival)
+		base := x
+		if e.Sign() < 0 {
+			base = ex.cycInverse(x)
+			e.Neg(e)
+		}
+		r := ex.cycScalar(n, rc(1))
+		for i := e.BitLen() - 1; i >= 0; i-- {
+			r = ex.cycMul(r, r)
+			if e.Bit(i) == 1 {
+				r = ex.cycMul(r, base)
+			}
+		}
+		return set(r), true
+	case "Equal":
+		return eq(L(0), L(1)), true
+	case "IsZero":
+		return eq(L(0), ex.cycZero(n)), true
+	case "IsOne":
+		return eq(L(0), ex.cycScalar(n, rc(1))), true
 	}
 	return nil, false
 }
